@@ -297,6 +297,15 @@ class GridWeighted(Grid):
         # The weighted grid points depend on the weights: invalidate the cache
         self._cache['gridptsw'][:] = []
 
+    def bumps(self, num_bumps, **kwargs):
+        """ Generates arbitrary bumps (i.e. hills) on the 2-dimensional grid.
+
+        Please see :py:meth:`.Grid.bumps` for details.
+        """
+        super(GridWeighted, self).bumps(num_bumps, **kwargs)
+        # The weighted grid points depend on the grid points: invalidate the cache
+        self._cache['gridptsw'][:] = []
+
     def reset(self):
         """ Resets the grid. """
         super(GridWeighted, self).reset()
